@@ -53,16 +53,36 @@ example : (1 : Nat) ∈ gEx14.waits 2 ∧ Ev.done 1 false ∈ (run gEx14 schedEx
 
 /-- Within one body the commands are entered one at a time in script order: when command `i` is
 entered it has not been entered before, and every earlier command has been entered and has returned
-nil before; after a command returned an error no later command of the task is entered. -/
+nil before; after a command FAILED — it returned an error, its name is unknown, or its text cannot be
+read (ends inside a quoted argument / an unterminated multi-line value): `Cmd.fail`, the event
+`ret t j false` marks the position — no later command of the task is entered, and the task does not
+close without error (third part; with `all_finish`: it closes WITH an error). -/
 theorem commands_in_order_stop_at_first_failure (g : Graph) (hw : wf g = true) (sched : List Label) :
     (∀ pre post t i, (run g sched).tr = pre ++ Ev.cmd t i :: post →
       i < (g.body t).length ∧ Ev.cmd t i ∉ pre ∧
       ∀ j, j < i → Ev.cmd t j ∈ pre ∧ Ev.ret t j true ∈ pre) ∧
-    (∀ t j i, Ev.ret t j false ∈ (run g sched).tr → j < i → Ev.cmd t i ∉ (run g sched).tr) := by
+    (∀ t j i, Ev.ret t j false ∈ (run g sched).tr → j < i → Ev.cmd t i ∉ (run g sched).tr) ∧
+    (∀ t j, Ev.ret t j false ∈ (run g sched).tr → Ev.done t true ∉ (run g sched).tr) := by
   have htr := run_traceOk ((wf_iff g).mp hw) sched
-  refine ⟨fun pre post t i h => ?_, fun t j i hf hji => no_cmd_after_failure htr hf hji⟩
+  refine ⟨fun pre post t i h => ?_, fun t j i hf hji => no_cmd_after_failure htr hf hji,
+    fun t j hf => no_done_true_after_failure htr hf⟩
   have := htr pre _ post h
   exact ⟨this.1, this.2.1, cmd_prev i htr h⟩
+
+/-- the position of a failing command is exactly a `Cmd.fail` of the script: a command returns an
+error only where the script says so (or where a submission is refused) -/
+theorem failure_only_where_scripted (g : Graph) (hw : wf g = true) (sched : List Label) (pre post : List Ev)
+    (t i : Nat) (h : (run g sched).tr = pre ++ Ev.ret t i false :: post) :
+    g.cmdAt t i = some .fail ∨ (∃ c, g.cmdAt t i = some (.spawn c)) ∨ (∃ y, g.cmdAt t i = some (.try_ y)) := by
+  have := (run_traceOk ((wf_iff g).mp hw) sched pre _ post h).2.2.2
+  unfold retOk at this
+  split at this
+  · cases this
+  · cases this
+  · exact Or.inl (by assumption)
+  · exact Or.inr (Or.inl ⟨_, by assumption⟩)
+  · exact Or.inr (Or.inr ⟨_, by assumption⟩)
+  · exact this.elim
 
 example : Ev.ret 1 1 false ∈ (run gEx14 schedEx14).tr ∧ Ev.cmd 1 0 ∈ (run gEx14 schedEx14).tr ∧
     (gEx14.body 1).length = 2 := by
